@@ -180,6 +180,22 @@ func loadRingVal(ex *absint.Exec, c *absint.CallCtx, v absint.Val, i int, srt sy
 		// a merged / loop-carried pointer: the element behind whichever address it holds
 		return sym.Ite(ch.Cond, loadRingVal(ex, c, c.St.Resolve(ch.A), i, srt), loadRingVal(ex, c, c.St.Resolve(ch.B), i, srt))
 	}
+	if ag, isAgg := v.(*absint.Agg); isAgg && len(ag.Elems) == 4 {
+		// four limbs passed by value
+		ws := make([]*sym.Term, 4)
+		for k, e := range ag.Elems {
+			t, isT := c.St.Resolve(e).(*sym.Term)
+			if !isT {
+				ex.Failf("%s: limb %d of argument %d is not a term", c.Name, k, i)
+				return sym.Fresh(srt, "bad", 0)
+			}
+			ws[k] = c.St.Simplify(t)
+		}
+		if iv, isInt := fromLimbs(ws); isInt {
+			return IntToRing(srt, iv)
+		}
+		return sym.App(srt, "of_limbs:"+srt.String(), ws...)
+	}
 	p, ok := v.(*absint.Ptr)
 	if !ok {
 		ex.Failf("%s: argument %d is not a pointer: %s", c.Name, i, absint.ValString(v))
